@@ -1,7 +1,7 @@
 """Contracts: soupsieve.css_match._DocumentNav (tree navigation; C01, C03, C08, C19)."""
 from pyvc.dsl import contract
 from pyvc.types import INT, BOOL, STR, TOpt, TSeq
-from pyvc.tree import NODE, SEQ_NODE, CSSMATCH, OPT_STR
+from pyvc.tree import NODE, SEQ_NODE, CSSMATCH, OPT_STR, ATTRVAL, OPT_ATTRVAL, RAW
 
 N = 'soupsieve.css_match._DocumentNav.'
 
@@ -54,3 +54,9 @@ contract(N + 'get_tag_children', params=dict(self=CSSMATCH, el=NODE, start=TOpt(
          opaque=True, properties=['C01'])
 contract(N + 'get_tag_descendants', params=dict(self=CSSMATCH, el=NODE, no_iframe=BOOL), returns=SEQ_NODE,
          kind='generator', ensures=['result == tag_desc(self, el, no_iframe)'], opaque=True, properties=['C01', 'C03'])
+
+contract(N + 'normalize_value', params=dict(value=RAW), returns=ATTRVAL, ensures=['result == norm(value)'], opaque=True, properties=['C08'])
+contract(N + 'get_attribute_by_name', params=dict(el=NODE, name=STR, default=OPT_ATTRVAL), returns=OPT_ATTRVAL, requires=['el is not None'],
+         ensures=['result == attr_by_name(el, name, default)'], locals=dict(value=OPT_ATTRVAL),
+         loops={1: dict(invariant=['value == default', 'raw_index_ci(_seq1, name, _i1) == raw_index_ci(_seq1, name, 0)', '_seq1 == rattrs(el)'])},
+         properties=['C01', 'C11', 'C08'])
